@@ -149,6 +149,25 @@ pub fn parse_guarded(text: &str) -> Result<Result<Parsed, varlink_parser::Error>
     std::panic::catch_unwind(|| IDL::try_from(text).map(|i| from_parsed(&i))).map_err(|p| pt::panic_text(&p))
 }
 
+/// The documentation text attached to a definition is the comment block, not the blanks and line
+/// breaks around it: it is empty or runs from the first `#` to the last character of the last comment
+/// that is not a blank. Returns the first documentation text that has blanks or line ends at an edge.
+pub fn doc_with_loose_edges(text: &str) -> Option<(String, String)> {
+    let Ok(Ok(v)) = std::panic::catch_unwind(|| {
+        IDL::try_from(text).map(|i| {
+            let mut v = vec![("interface".to_string(), i.doc.to_string())];
+            v.extend(i.typedefs.iter().map(|(k, t)| (format!("type {}", k), t.doc.to_string())));
+            v.extend(i.methods.iter().map(|(k, m)| (format!("method {}", k), m.doc.to_string())));
+            v.extend(i.errors.iter().map(|(k, e)| (format!("error {}", k), e.doc.to_string())));
+            v
+        })
+    }) else {
+        return None;
+    };
+    let edge = |c: char| is_blank(c) || is_eol_char(c);
+    v.into_iter().find(|(_, d)| !d.is_empty() && (!d.starts_with('#') || d.chars().last().map(edge).unwrap_or(false)))
+}
+
 /// Differential oracle. `intended` (when the text was generated from a known AST) is compared too.
 pub fn differential(text: &str, intended: Option<&Idl>) -> Result<Outcome, Fail> {
     let verdict = recognise(text);
@@ -186,6 +205,12 @@ pub fn differential(text: &str, intended: Option<&Idl>) -> Result<Outcome, Fail>
                     "definition"
                 };
                 return Err(Fail::new(format!("parser/structure-differs/{}", class), d));
+            }
+            if let Some((what, doc)) = doc_with_loose_edges(text) {
+                return Err(Fail::new(
+                    "parser/structure-differs/documentation-edges",
+                    format!("documentation of {} is {:?}: it does not run from the first `#` to the last non-blank character of the comment block", what, doc),
+                ));
             }
             Ok(Outcome::BothAccept)
         }
